@@ -10,7 +10,15 @@ from tempfile import TemporaryDirectory
 from types import MappingProxyType
 from typing import Literal
 
-from z3 import CheckSatResult, Solver, sat, unknown, unsat
+from z3 import (
+    CheckSatResult,
+    Solver,
+    Z3_enable_concurrent_dec_ref,
+    main_ctx,
+    sat,
+    unknown,
+    unsat,
+)
 
 from halmos.calldata import FunctionInfo
 from halmos.config import Config as HalmosConfig
@@ -28,6 +36,14 @@ from halmos.sevm import Address, Exec, SMTQuery
 from halmos.utils import hexify
 
 EXIT_TIMEDOUT = 124
+
+# z3 objects that sit in reference cycles (e.g. the Exec of a finished path, its Path and
+# Solver) are released by Python's cyclic garbage collector, which runs on whichever thread
+# happens to allocate, including the solver threads. A z3 context is not thread-safe, so a
+# release that overlaps a z3 call of the main thread corrupts the context (segmentation fault
+# or "ASSERTION VIOLATION ... UNEXPECTED CODE WAS REACHED"), unless the context is told that
+# reference counts may be decremented from other threads.
+Z3_enable_concurrent_dec_ref(main_ctx().ref())
 
 
 # Type alias for directory used for dumping SMT files
